@@ -41,7 +41,8 @@ class C05Struct(Scenario):
                   "load_style": rng.choice(STYLES + ("link", "link")), "mmap": rng.chance(1, 4),
                   "cwd_gone": rng.chance(1, 8),
                   "chdir": rng.choice(seams.Scratch.DIRS) if rng.chance(1, 3) else None,
-                  "reuse": rng.chance(1, 3), "frozen": rng.chance(1, 2)}
+                  "reuse": rng.chance(1, 3), "frozen": rng.chance(1, 2), "probe_first": rng.chance(1, 4),
+                  "sink": rng.weighted([(2, 0), (1, 1), (1, 2)])}
             if ff:
                 st.update({"chan": "bytes" if "bytes" in chans else chans[0], "dir": "a", "style": "abs", "stale": False,
                            "chdir": None})
@@ -124,6 +125,21 @@ class C05Struct(Scenario):
             if step.get("frozen"):
                 scr.clock.freeze()
                 ctx.fault("clock_frozen")
+        sub.sink_kind = step.get("sink", 0)
+        probed = False
+        if (step.get("probe_first") and chan == "path" and not reuse and not step["stale"]
+                and sub.name not in ("RotatingBloomFilter", "BloomFilterOnDisk")
+                and not os.path.lexists(scr.abspath(*where))):
+            # the documented "from the file if it is there, else from these parameters" idiom, BEFORE the file exists:
+            # the same spelling is loaded again once the export has been written
+            sub.variant = 2
+            try:
+                sub.load(None, "path", where, step["style"])
+            except Exception as e:
+                raise Violation("load_failed", f"{sub.name}: constructor given sizing arguments and the path of a file "
+                                               f"that does not exist yet raised {type(e).__name__}: {e}", sig)
+            ctx.fault("loader_probed_before_file_exists")
+            probed = True
         for c in sub.channels:
             if c == "path":
                 if step["stale"]:
@@ -156,6 +172,8 @@ class C05Struct(Scenario):
             ctx.fault("cwd_change")
         sub.variant = step.get("variant", 0)
         load_style = step.get("load_style", step["style"]) if sub.name != "BloomFilterOnDisk" else step["style"]
+        if probed:
+            load_style = step["style"]
         if load_style == "link":
             ctx.fault("path_style_link")
         if sub.variant and chan in ("bytes", "fileobj"):
